@@ -13,10 +13,13 @@
 (*   level 2 programs: one operation whose operands are level <= 1         *)
 (*     programs or constants (every program of depth <= 2 exactly once).   *)
 (*   level 3 programs: op(L, R) with L, R of level <= 2 (random walks).    *)
-(*   Every program is evaluated at every point of Points; Emit prints the  *)
-(*   program, the point and the symbolic (non-rational) entries of the     *)
-(*   required value and Jacobian, or the reason why the program is not in  *)
-(*   the family at that point.                                             *)
+(*   Only well-typed programs (AdAlgebra.TType: the operations Python      *)
+(*   supports, matching sizes) are listed, each at every point of its      *)
+(*   configuration; Emit prints the program, the point and the symbolic    *)
+(*   (non-rational) entries of the required value and Jacobian, or the     *)
+(*   reason why the point is not in the smooth domain of the program.      *)
+(*   Several configurations (operand subsets of the catalogue x points x   *)
+(*   operations) are enumerated in one run.                                *)
 (* Mode "table": for every function instance and sample abscissa the table *)
 (*   value at u, u +- h, u +- h/2 and the table derivative at u (the       *)
 (*   harness cross-validates the calculus table by Richardson-extrapolated *)
@@ -25,69 +28,75 @@
 EXTENDS AdAlgebra, Json
 
 CONSTANTS Mode,       \* "tree" | "table"
-          BinOps,     \* subset of BinaryOps used by the enumeration
-          UnOps,      \* subset of {"neg", "matmul", "slice", "fn"}
+          Cfgs,       \* tree mode: sequence of enumeration configurations
+                      \*   [pts, F, A, M, S, Fn |-> sets of indices into Points, FCat, ACat, MCat, SCat, FnCat;
+                      \*    bin |-> subset of BinaryOps; un |-> subset of {"neg", "matmul", "slice", "fn"};
+                      \*    law |-> root operations at which the algebra laws are evaluated]
           MaxLevel,   \* 2 (exhaustive) or 3 (simulation)
-          LawOps,     \* root operations at which the algebra laws are evaluated (subset of BinOps)
           Samples     \* table mode: sequence of abscissae <<n, d>>
 
-VARIABLES st, pt, t, u
-vars == <<st, pt, t, u>>
+VARIABLES st, cf, pt, t, u
+vars == <<st, cf, pt, t, u>>
 
 None1 == <<"none", "none", 0, "none", 0>>
-AdOps == {<<"var", i>> : i \in 1..NV}
-CstOps == {<<"f", i>> : i \in 1..Len(FCat)} \cup {<<"arr", i>> : i \in 1..Len(ACat)}
+Cf == Cfgs[cf]
+Pt == Points[pt]
+AdOps == {<<"var", i>> : i \in 1..Len(Pt)}
+CstOps == {<<"f", i>> : i \in Cf.F} \cup {<<"arr", i>> : i \in Cf.A}
 BinPairs == {<<x, y>> : x \in AdOps, y \in AdOps \cup CstOps} \cup {<<x, y>> : x \in CstOps, y \in AdOps}
+Un(o) == o \in Cf.un
 
 D1 == {<<"leaf", v[1], v[2], "none", 0>> : v \in AdOps}
-      \cup {<<op, p[1][1], p[1][2], p[2][1], p[2][2]>> : op \in BinOps, p \in BinPairs}
-      \cup (IF "neg" \in UnOps THEN {<<"neg", v[1], v[2], "none", 0>> : v \in AdOps} ELSE {})
-      \cup (IF "matmul" \in UnOps THEN {<<"matmul", "mat", m, v[1], v[2]>> : m \in 1..Len(MCat), v \in AdOps} ELSE {})
-      \cup (IF "slice" \in UnOps THEN {<<"slice", v[1], v[2], "sl", s>> : s \in 1..Len(SCat), v \in AdOps} ELSE {})
-      \cup (IF "fn" \in UnOps THEN {<<"fn", v[1], v[2], "fn", f>> : f \in 1..Len(FnCat), v \in AdOps} ELSE {})
+      \cup {<<op, p[1][1], p[1][2], p[2][1], p[2][2]>> : op \in Cf.bin, p \in BinPairs}
+      \cup (IF Un("neg") THEN {<<"neg", v[1], v[2], "none", 0>> : v \in AdOps} ELSE {})
+      \cup (IF Un("matmul") THEN {<<"matmul", "mat", m, v[1], v[2]>> : m \in Cf.M, v \in AdOps} ELSE {})
+      \cup (IF Un("slice") THEN {<<"slice", v[1], v[2], "sl", s>> : s \in Cf.S, v \in AdOps} ELSE {})
+      \cup (IF Un("fn") THEN {<<"fn", v[1], v[2], "fn", f>> : f \in Cf.Fn, v \in AdOps} ELSE {})
 Cst1 == {<<"const", c[1], c[2], "none", 0>> : c \in CstOps}
 Leafish(d) == d[1] \in {"leaf", "const"}
+K1(k, i) == <<"const", k, i, "none", 0>>
 
-\* all operations with the level-n program x as the (first) AdArray operand; R = candidates for the other operand
-Grow(x, R, C) ==
-  {<<op, x, r>> : op \in BinOps, r \in R \cup C} \cup {<<op, c, x>> : op \in BinOps, c \in C}
-  \cup (IF "neg" \in UnOps THEN {<<"neg", x, None1>>} ELSE {})
-  \cup (IF "matmul" \in UnOps THEN {<<"matmul", <<"const", "mat", m, "none", 0>>, x>> : m \in 1..Len(MCat)} ELSE {})
-  \cup (IF "slice" \in UnOps THEN {<<"slice", x, <<"const", "sl", s, "none", 0>>>> : s \in 1..Len(SCat)} ELSE {})
-  \cup (IF "fn" \in UnOps THEN {<<"fn", x, <<"const", "fn", f, "none", 0>>>> : f \in 1..Len(FnCat)} ELSE {})
+\* all operations with the program x as the (first) AdArray operand; RR, CC = candidates for the other operand
+Grow(x, RR, CC) ==
+  {<<op, x, r>> : op \in Cf.bin, r \in RR \cup CC} \cup {<<op, c, x>> : op \in Cf.bin, c \in CC}
+  \cup (IF Un("neg") THEN {<<"neg", x, None1>>} ELSE {})
+  \cup (IF Un("matmul") THEN {<<"matmul", K1("mat", m), x>> : m \in Cf.M} ELSE {})
+  \cup (IF Un("slice") THEN {<<"slice", x, K1("sl", s)>> : s \in Cf.S} ELSE {})
+  \cup (IF Un("fn") THEN {<<"fn", x, K1("fn", f)>> : f \in Cf.Fn} ELSE {})
 \* level 2 programs that are not level 1 programs written differently
 Grow2(x) == {y \in Grow(x, D1, Cst1) : ~(Leafish(y[2]) /\ (y[3] = None1 \/ Leafish(y[3])))}
 Lift(d) == <<"id", d, None1>>
 None2 == Lift(None1)
-IsAd(x) == Eval(x, Points[pt]).k = "ad"
+WT(x) == WellTyped(x, Pt)
 
 (* ---- mode "tree" ---- *)
 \* st 0 -> 1: a level 1 program;  1 -> 2: grown to level 2.  Only for MaxLevel = 3:  2 -> 3: second subtree, level 1
 \* (or a constant); 3 -> 4: grown to level <= 2; 4 -> 5: the level 3 program.
 Final == IF MaxLevel = 2 THEN 2 ELSE 5
-TreeInit == st = 0 /\ pt \in 1..Len(Points) /\ t = None1 /\ u = None1
-Pick1 == st = 0 /\ st' = 1 /\ t' \in D1 /\ u' = u /\ pt' = pt /\ Eval(t', Points[pt]).k = "ad"
-Grow1 == /\ st = 1 /\ st' = 2 /\ u' = u /\ pt' = pt
-         /\ IF MaxLevel = 2 THEN t' \in Grow2(t)
-            ELSE t' \in {y \in Grow2(t) \cup {Lift(t)} : Eval(y, Points[pt]).k = "ad"}
-Pick2 == st = 2 /\ MaxLevel = 3 /\ st' = 3 /\ t' = t /\ pt' = pt /\ u' \in {d \in D1 : IsAd(d)} \cup Cst1
-Grow3 == /\ st = 3 /\ st' = 4 /\ t' = t /\ pt' = pt
+TreeInit == st = 0 /\ cf \in 1..Len(Cfgs) /\ pt \in Cfgs[cf].pts /\ t = None1 /\ u = None1
+Same == cf' = cf /\ pt' = pt
+Pick1 == st = 0 /\ st' = 1 /\ t' \in {d \in D1 : WT(d)} /\ u' = u /\ Same
+Grow1 == /\ st = 1 /\ st' = 2 /\ u' = u /\ Same
+         /\ IF MaxLevel = 2 THEN t' \in {y \in Grow2(t) : WT(y)}
+            ELSE t' \in {y \in Grow2(t) \cup {Lift(t)} : WT(y)}
+Pick2 == st = 2 /\ MaxLevel = 3 /\ st' = 3 /\ t' = t /\ Same /\ u' \in {d \in D1 : WT(d)} \cup Cst1
+Grow3 == /\ st = 3 /\ st' = 4 /\ t' = t /\ Same
          /\ u' \in IF Leafish(u) /\ u[1] = "const" THEN {Lift(u)}
-                   ELSE {y \in Grow2(u) \cup {Lift(u)} : Eval(y, Points[pt]).k = "ad"}
+                   ELSE {y \in Grow2(u) \cup {Lift(u)} : WT(y)}
 IsCst2(x) == x[1] = "id" /\ x[2][1] = "const"
-Un3(x) == (IF "neg" \in UnOps THEN {<<"neg", x, None2>>} ELSE {})
-  \cup (IF "matmul" \in UnOps THEN {<<"matmul", Lift(<<"const", "mat", m, "none", 0>>), x>> : m \in 1..Len(MCat)} ELSE {})
-  \cup (IF "slice" \in UnOps THEN {<<"slice", x, Lift(<<"const", "sl", s, "none", 0>>)>> : s \in 1..Len(SCat)} ELSE {})
-  \cup (IF "fn" \in UnOps THEN {<<"fn", x, Lift(<<"const", "fn", f, "none", 0>>)>> : f \in 1..Len(FnCat)} ELSE {})
-Join  == /\ st = 4 /\ st' = 5 /\ pt' = pt /\ u' = u
-         /\ t' \in {<<op, t, u>> : op \in BinOps}
-                   \cup (IF IsCst2(u) THEN {<<op, u, t>> : op \in BinOps} ELSE {}) \cup Un3(t)
+Un3(x) == (IF Un("neg") THEN {<<"neg", x, None2>>} ELSE {})
+  \cup (IF Un("matmul") THEN {<<"matmul", Lift(K1("mat", m)), x>> : m \in Cf.M} ELSE {})
+  \cup (IF Un("slice") THEN {<<"slice", x, Lift(K1("sl", s))>> : s \in Cf.S} ELSE {})
+  \cup (IF Un("fn") THEN {<<"fn", x, Lift(K1("fn", f))>> : f \in Cf.Fn} ELSE {})
+Join  == /\ st = 4 /\ st' = 5 /\ Same /\ u' = u
+         /\ t' \in {y \in {<<op, t, u>> : op \in Cf.bin}
+                           \cup (IF IsCst2(u) THEN {<<op, u, t>> : op \in Cf.bin} ELSE {}) \cup Un3(t) : WT(y)}
 TreeNext == Pick1 \/ Grow1 \/ Pick2 \/ Grow3 \/ Join
 
 (* ---- mode "table" ---- *)
 \* pt = index of the function instance, t = <<sample index>>
-TabInit == st = 0 /\ pt \in 1..Len(FnCat) /\ t = None1 /\ u = None1
-TabNext == st = 0 /\ st' = 1 /\ pt' = pt /\ u' = u /\ t' \in {<<i>> : i \in 1..Len(Samples)}
+TabInit == st = 0 /\ cf = 0 /\ pt \in 1..Len(FnCat) /\ t = None1 /\ u = None1
+TabNext == st = 0 /\ st' = 1 /\ Same /\ u' = u /\ t' \in {<<i>> : i \in 1..Len(Samples)}
 Hh == <<1, 64>>
 TabRec ==
   LET f == FnCat[pt]
@@ -101,22 +110,25 @@ Init == IF Mode = "tree" THEN TreeInit ELSE TabInit
 Next == IF Mode = "tree" THEN TreeNext ELSE TabNext
 Spec == Init /\ [][Next]_vars
 
-\* programs are emitted at st = 1 (level 1) and at the final stage
+\* programs are emitted at st = 1 (level 1) and at the final stage: the program, the point, and the required entries
+\* that are terms (the harness evaluates them with numpy), or the reason why the point is outside the smooth domain
 Emitting == Mode = "tree" /\ (st = Final \/ (st = 1 /\ MaxLevel = 2))
-EmitRec == LET E == Eval(t, Points[pt])
-           IN IF E.k = "ad" THEN [t |-> t, pt |-> pt, n |-> Len(E.v), sym |-> SymEntries(E.v)]
-              ELSE [skip |-> IF E.k = "bad" THEN E.why ELSE "type"]
+EmitRec == LET E == Eval(t, Pt)
+           IN IF E.k = "ad" THEN [t |-> t, pt |-> pt, cf |-> cf, sym |-> SymEntries(E.v, NNP(Pt))]
+              ELSE [skip |-> IF E.k = "bad" THEN E.why ELSE "type", cf |-> cf]
 Emit == /\ Emitting => PrintT(ToJson(EmitRec))
         /\ (Mode = "table" /\ st = 1) => PrintT(ToJson(TabRec))
 
-\* design-level laws on the operands of the root operation (allow_violation = False in the driver)
-Laws == (Emitting /\ st = Final /\ t[1] \in LawOps) =>
-          LET A == Eval(t[2], Points[pt])
-              B == Eval(t[3], Points[pt])
-          IN (BinOK(A, B) /\ A.k # "bad" /\ B.k # "bad") =>
+\* design-level laws (allow_violation = False in the driver) on the operands a, b of the root operation of the level 2
+\* programs  a op b  with b a variable or a constant: a ranges over the values of ALL level <= 1 programs
+Laws == (Emitting /\ st = Final /\ MaxLevel = 2 /\ t[1] \in Cf.law /\ Leafish(t[3])) =>
+          LET A == Eval(t[2], Pt)
+              B == Eval(t[3], Pt)
+              nn == NNP(Pt)
+          IN (A.k # "bad" /\ B.k # "bad" /\ BinOK(A, B)) =>
                LET n == Max2(SizeV(A), SizeV(B))
                    a == AsDuals(A, n)
                    b == AsDuals(B, n)
-               IN /\ \A i \in 1..n : LawsOf(a[i], b[i])
-                  /\ \A m \in 1..Len(MCat) : LawLinearOf(MCat[m].m, a, b)
+               IN /\ \A i \in 1..n : LawsOf(a[i], b[i], nn)
+                  /\ \A m \in Cf.M : LawLinearOf(MCat[m].m, a, b, nn)
 =============================================================================
